@@ -295,6 +295,9 @@ class Interp:
                     if not isinstance(v0, VBool):
                         raise Unsupported('non-boolean operand')
                     vals.append(v0.t)
+                    cb = is_concrete_bool(v0.t)
+                    if cb is not None and cb == (not is_and):
+                        return VBool(cb)        # decided: the remaining operands are not evaluated
                 if len(self.ex.ctx.decisions) == saved[0]:
                     return VBool(z3.And(vals) if is_and else z3.Or(vals))
             except (PyRaise, Unsupported):
